@@ -33,22 +33,31 @@ SNIPPETS = {
     "missing_incbin": [".incbin 'nofile.bin'"],
     "missing_table": [".table 'nofile.tbl'"],
     "missing_ips": [".include_ips 'nofile.ips', 0"],
+    # a patch file that exists but is not a well-formed IPS file (no header; cut in the middle of a record)
+    "malformed_ips": [".include_ips 'nohdr.ips', 0", ".include_ips 'trunc.ips', 0", ".include_ips 'trunc2.ips', 0x100"],
     "undefined_operand_nosuffix": ["lda nosuchsym"],
-    "unmapped_position": ["*=0x700000\n.db 1"],
+    "unmapped_position": ["*=0x700000\n.db 1", "*=0xD08000\n.db 1", "*=0xEF8000\n.db 1", "*=0x7D0000\n.db 1"],
     "undefined_equ": ["vv = nosuchsym + 1"],
     "undefined_operand": ["lda.w nosuchsym", "jmp.w nosuchsym"],
     "undefined_data": [".dw nosuchsym", ".db 1, nosuchsym"],
     "bad_width": ["lda.l #0x123456", "jmp.b 0x12", "rep.w #0x30"],
-    "bad_mode": ["ldx (0x12),y", "stz [0x10]", "nop #1"],
+    "bad_mode": ["ldx (0x12),y", "stz [0x10]", "nop #1", "lda.b #0x10, x", "ldx.w #0x1234, y"],
     "branch_range": ["bra zfar\n.ascii '" + "x" * 200 + "'\nzfar:"],
     "text_without_table": [".text 'ab'"],
+}
+
+
+SNIPPET_FILES = {
+    "nohdr.ips": {"bytes": [0x00, 0x80, 0x00, 0x00, 0x01, 0x55, 69, 79, 70]},
+    "trunc.ips": {"bytes": [80, 65, 84, 67, 72, 0x00, 0x80, 0x00, 0x00, 0x05, 0x01, 0x02]},
+    "trunc2.ips": {"bytes": [80, 65, 84, 67, 72, 0x00, 0x80, 0x00, 0x00, 0x01, 0x01, 0x00, 0x90]},
 }
 
 
 def build(case: dict, variant: int) -> dict:
     base = list(BASES[case["base"]])
     f = case["fault"]
-    files = {}
+    files = dict(SNIPPET_FILES) if f == "malformed_ips" else {}
     if f in ("none", "missing_source"):
         return {"src": "\n".join(base) + "\n", "files": files, "missing_source": f == "missing_source", "snippet": ""}
     snip = SNIPPETS[f][variant % len(SNIPPETS[f])]
@@ -79,7 +88,7 @@ def build(case: dict, variant: int) -> dict:
 
 
 def run(ctx) -> None:
-    ctx.rule = ("cases = GenC14: 4 entry points x 20 fault classes x 10 positions x 3 base programs (x snippet variants); "
+    ctx.rule = ("cases = GenC14: 4 entry points x 21 fault classes x 10 positions x 3 base programs (x snippet variants); "
                 "non-trivial = distinct (entry, fault class, position, base, variant)")
     ctx.trusted = ["TLC 1.8", "spec/Front.tla, FrontDefs.tla", "fault snippets and base programs in harness/props/c14.py "
                    "(each snippet is a definite error by construction)"]
